@@ -106,6 +106,12 @@ ConstraintFaults(key, props) ==
           ELSE IF c.k = "if_true_forbids" THEN (IF Has(props, c.a) /\ Get(props, c.a).k = "bool" /\ Get(props, c.a).v /\ Has(props, c.b) THEN {c.a \o ":true_forbids:" \o c.b} ELSE {})
           ELSE IF c.k = "if_false_forbids" THEN (IF Has(props, c.a) /\ Get(props, c.a).k = "bool" /\ ~Get(props, c.a).v /\ Has(props, c.b) THEN {c.a \o ":false_forbids:" \o c.b} ELSE {})
           ELSE IF c.k = "any_property" THEN (IF Names(props) \ ToSet(c.except) = {} THEN {"at_least_one_property"} ELSE {})
+          ELSE IF c.k = "definition_by_type" THEN
+               (IF Has(props, "definition_type") /\ Has(props, "definition") /\ Get(props, "definition_type").k = "str"
+                   /\ ("markings:" \o Get(props, "definition_type").s) \in DOMAIN Types
+                THEN (IF Get(props, "definition").k # "obj" THEN {"definition:not_an_object"}
+                      ELSE { "definition:" \o f : f \in ObjFaults("markings:" \o Get(props, "definition_type").s, Get(props, "definition").props) })
+                ELSE {})
           ELSE IF c.k = "if_true" THEN (IF Has(props, c.a) /\ Get(props, c.a).k = "bool" /\ Get(props, c.a).v /\ ~Has(props, c.b) THEN {c.a \o ":true_requires:" \o c.b} ELSE {})
           ELSE {} : i \in DOMAIN Types[key].constraints }
 
